@@ -371,8 +371,14 @@ def bare_body_entry_type(sx, p):
     app, server = BAPPS[pname]
     prot = app.in_protocol
     cls = CLASSES[ci]
-    marker = cls.get_type_name_ns(app.interface)
-    nsmap = dict(app.interface.nsmap)
+    # the sender's prefixes are its own business: either the ones the receiver would have chosen, or a binding in which a
+    # prefix the receiver uses for something else (xs) stands for the namespace of the classes
+    if sx.choose('prefixes', ['as the receiver numbers them', 'the sender\'s own']) == 'as the receiver numbers them':
+        marker = cls.get_type_name_ns(app.interface)
+        nsmap = dict(app.interface.nsmap)
+    else:
+        marker = 'xs:' + cls.get_type_name()
+        nsmap = {'xs': 'tns', 'xsi': XSI_NS}
     vals, kids = {}, []
     for f in FIELDS[cls]:
         vals[f] = sx.digits('v_' + f, 1) if f in ('a', 'b') else sx.text('v_' + f, 1, alphabet='xyz')
@@ -652,3 +658,74 @@ def xml_marker_foreign_namespace(sx, p):
         if e.nsmap.get(pfx) != 'urn:models' or nm != 'MSub':
             return False
     return True
+
+
+# ---------------------------------------------------------------- SOAP headers declared with a base class
+class HeaderSvc(Service):
+    __in_header__ = Base
+    __out_header__ = Base
+
+    @rpc(_returns=Integer)
+    def ping(ctx):
+        RET['in_header'] = ctx.in_header
+        ctx.out_header = RET['out_header']
+        return 1
+
+
+HAPPS = {}
+
+
+@harness('C16', params=[(pn, ci) for pn in ('Soap11', 'Soap12') for ci in range(3)],
+         label=lambda p: '%s header=%s' % (p[0], CLASSES[p[1]].__name__),
+         functions=['spyne.protocol.soap.soap11.Soap11.serialize', 'spyne.protocol.soap.soap11.Soap11.deserialize'],
+         bounds={'headers': 'a service whose in and out headers are declared with Base; the request header carries the type marker of '
+                            'Base, Child or GrandChild and its fields, the function answers with a header object of the same class '
+                            '(enumeration of the three classes; concrete field values)'})
+def soap_header_polymorphic(sx, p):
+    """a header object of a subclass travels like a body value: under the element name of the declared class, marked with
+    its own type, all fields intact - in both directions"""
+    from lxml import etree
+    pname, ci = p
+    P = {'Soap11': Soap11, 'Soap12': Soap12}[pname]
+    if pname not in HAPPS:
+        HAPPS[pname] = Application([HeaderSvc], 'tns', in_protocol=P(polymorphic=True), out_protocol=P(polymorphic=True))
+    app = HAPPS[pname]
+    server = ServerBase(app)
+    cls = CLASSES[ci]
+    vals = dict((f, 7 if f in ('a', 'b') else u'v' + f) for f in FIELDS[cls])
+    RET.clear()
+    RET['out_header'] = cls(**vals)
+    env = 'http://schemas.xmlsoap.org/soap/envelope/' if pname == 'Soap11' else 'http://www.w3.org/2003/05/soap-envelope'
+    fields = ''.join('<t:%s>%s</t:%s>' % (f, vals[f], f) for f in FIELDS[cls])
+    body = ('<e:Envelope xmlns:e="%s" xmlns:t="tns" xmlns:xsi="%s"><e:Header><t:Base xsi:type="t:%s">%s</t:Base></e:Header>'
+            '<e:Body><t:ping/></e:Body></e:Envelope>' % (env, XSI_NS, cls.__name__, fields)).encode()
+    ctx = MethodContext(server, MethodContext.SERVER)
+    ctx.in_string = [body]
+    ctx, = server.generate_contexts(ctx)
+    server.get_in_object(ctx)
+    if ctx.in_error is not None:
+        return False
+    server.get_out_object(ctx)
+    server.get_out_string(ctx)
+    if ctx.out_error is not None:
+        return False
+    got = RET.get('in_header')
+    if isinstance(got, (list, tuple)):
+        got = got[0] if len(got) == 1 else None
+    if type(got) is not cls or any(getattr(got, f, None) != vals[f] for f in FIELDS[cls]):
+        return False
+    root = etree.fromstring(b''.join(ctx.out_string))
+    hdr = root.find('{%s}Header' % env)
+    if hdr is None or len(hdr) != 1:
+        return False
+    el = hdr[0]
+    if el.tag != '{tns}Base':
+        return False            # the element of a header is named after the declared class
+    xt = el.get('{%s}type' % XSI_NS)
+    if cls is not Base:
+        if xt is None:
+            return False
+        pfx, _, nm = xt.partition(':')
+        if el.nsmap.get(pfx) != 'tns' or nm != cls.__name__:
+            return False
+    return all(el.findtext('{tns}%s' % f) == str(vals[f]) for f in FIELDS[cls])
